@@ -351,7 +351,7 @@ def gen_history_case(rng, i, nested=False, nops=None):
         elif path in files and not cfg.get("root") and rng.random() < 0.12:
             # replaced by a file with the OLD modification time (cp -p, rsync -t): vinegar's loader hashes ctime, inode
             # and size as well; with root_dir Jinja2's own loader compares the mtime alone (documented there)
-            ops[-1].append("keep_mtime")
+            ops[-1].append("keep_mtime" if rng.random() < 0.5 else "keep_stat")
         files[path] = level
 
     tops = rng.sample(LEVEL_FILES[0], rng.randrange(1, 3))
